@@ -526,22 +526,26 @@ def amnt_macro(repo):
     return out
 
 
-def run(repo, verif, gen, tables, write_if_changed):
+def run(repo, verif, gen, tables, write_if_changed, piece=None):
+    """`piece(name, fn)` evaluates fn(root) on the repository and, when the source cannot be read,
+    on the snapshot under /verif/fallback (recording the piece as tied by dump only)"""
+    if piece is None:
+        piece = lambda name, fn: fn(repo)  # noqa: E731
     changed = []
-    si = si_tables(repo)
+    si = piece("si", si_tables)
     tables["si"] = si
     if write_if_changed(os.path.join(gen, "SI.lean"), emit_si(si)):
         changed.append("SI")
-    tt = temp_table(repo)
+    tt = piece("temp", temp_table)
     if tt is not None:
         tables["temp"] = dict(rows=[(a, b, f, o) for a, b, f, o in tt["rows"]], size=tt["size"])
         if write_if_changed(os.path.join(gen, "TempTable.lean"), emit_temp(tt)):
             changed.append("TempTable")
-    ft = features_tables(repo)
+    ft = piece("features", features_tables)
     tables["features"] = dict(features=ft["features"], optional=ft["optional"],
                               gates=[(m, repr(e)) for m, e in ft["gates"]],
                               imports=ft["imports"], plain_modules=ft["plain_modules"])
     if write_if_changed(os.path.join(gen, "Features.lean"), emit_features(ft)):
         changed.append("Features")
-    tables["amnt"] = amnt_macro(repo)
+    tables["amnt"] = piece("amnt", amnt_macro)
     return changed
